@@ -185,7 +185,7 @@ class C14(Prop):
                                      args={'fire_count': '-1', 'fire_period': '0', 'log_msg': 'x={x}'}, watches=[])])
             o = send_outcomes.pop(0) if send_outcomes else 'ok'
             if recipe.get('slow_send'):
-                time.sleep(0.03)        # the collector takes a moment: delivery is still under way when shutdown starts
+                time.sleep(0.1)         # the collector takes a moment: delivery is still under way when shutdown starts
             sent.append(o)
             if o == 'fail':
                 return RuntimeError('send failed')
